@@ -21,6 +21,7 @@ import (
 	"sort"
 	"sync"
 	"sync/atomic"
+	"time"
 	"unsafe"
 
 	"github.com/couchbase/nitro/skiplist"
@@ -300,6 +301,7 @@ func abMain(args []string) int {
 	n := fs.Int("n", 100, "")
 	free := fs.Bool("free", false, "free-running goroutines (no gate): API events only")
 	big := fs.Bool("big", false, "larger random scenarios")
+	many := fs.Int("many", 0, "append a scenario in which one goroutine holds this many tokens of one session at once (scale)")
 	fs.Parse(args)
 	t, err := tr.Create(*out)
 	if err != nil {
@@ -365,8 +367,105 @@ func abMain(args []string) int {
 			run(sc)
 		}
 	}
+	if *many > 0 {
+		if msg := abMany(t, *many); msg != "" {
+			failed = append(failed, "many holders: "+msg)
+		}
+		nsc++
+	}
 	t.Flush()
 	js, _ := json.Marshal(map[string]interface{}{"scenarios": nsc, "events": t.Count(), "failed": failed})
 	fmt.Println(string(js))
 	return 0
+}
+
+// abMany: scale.  One goroutine acquires k tokens of the same session and holds them all; another accessor arrives;
+// two flushes follow; the extra accessor leaves; only then the holder releases.  No destructor may run before that.
+// The k tokens are logged as ONE group token (one AcqRet / RelCall with a count), which is exact for the API
+// specification: the group is released as a whole.  If the bulk acquisition stops making progress (the barrier's
+// arithmetic gives out at that many holders), the pending Acquire is treated as the extra accessor.
+func abMany(t *tr.W, k int) string {
+	r := &abRun{t: t, sess: map[unsafe.Pointer]int{}, free: true}
+	cfg := skiplist.DefaultConfig()
+	cfg.BarrierDestructor = func(ref unsafe.Pointer) {
+		t.Emit(tr.Ev{"e": "Destruct", "f": int(uintptr(ref))})
+	}
+	cfg.UseMemoryMgmt = true
+	al := nh.NewAlloc()
+	cfg.Malloc, cfg.Free = al.Malloc, al.Free
+	sl := skiplist.NewWithConfig(cfg)
+	r.ab = sl.GetAccesBarrier()
+	cur, _, _, _, _ := skiplist.VerifBarrier(r.ab)
+	r.sid(unsafe.Pointer(cur))
+	t.Emit(tr.Ev{"e": "AbInit", "procs": []string{"h", "x"}, "free": true, "many": k})
+	abCur.Store(r)
+	defer abCur.Store((*abRun)(nil))
+	var got int64
+	toks := make([]*skiplist.BarrierSession, 0, k)
+	extra := make(chan *skiplist.BarrierSession, 1)
+	go func() {
+		for i := 0; i < k; i++ {
+			tk := r.ab.Acquire()
+			if int(atomic.LoadInt64(&got)) < 0 { // the main goroutine gave up on the bulk: this one is the extra accessor
+				extra <- tk
+				return
+			}
+			toks = append(toks, tk)
+			atomic.AddInt64(&got, 1)
+		}
+		extra <- nil
+	}()
+	// wait for the bulk (or for it to stall)
+	last, still := int64(-1), 0
+	for still < 100 {
+		g := atomic.LoadInt64(&got)
+		if g >= int64(k) {
+			break
+		}
+		if g == last {
+			still++
+		} else {
+			still, last = 0, g
+		}
+		time.Sleep(20 * time.Millisecond)
+	}
+	n := int(atomic.LoadInt64(&got))
+	stalled := n < k
+	if n == 0 {
+		return "no token could be acquired"
+	}
+	if stalled {
+		atomic.StoreInt64(&got, -1)
+	}
+	t.Emit(tr.Ev{"e": "AcqRet", "p": "h", "sess": r.sid(unsafe.Pointer(toks[0])), "n": n})
+	var xt *skiplist.BarrierSession
+	if !stalled {
+		<-extra
+		xt = r.ab.Acquire()
+		t.Emit(tr.Ev{"e": "AcqRet", "p": "x", "sess": r.sid(unsafe.Pointer(xt))})
+	}
+	for f := 1; f <= 2; f++ {
+		t.Emit(tr.Ev{"e": "FlushCall", "p": "x", "f": f})
+		r.ab.FlushSession(unsafe.Pointer(uintptr(f)))
+		t.Emit(tr.Ev{"e": "FlushRet", "p": "x", "f": f})
+	}
+	if stalled {
+		select {
+		case xt = <-extra:
+			t.Emit(tr.Ev{"e": "AcqRet", "p": "x", "sess": r.sid(unsafe.Pointer(xt))})
+		case <-time.After(10 * time.Second):
+			t.Emit(tr.Ev{"e": "Panic", "p": "x", "msg": fmt.Sprintf("Acquire did not return although %d tokens are held and two flushes completed", n)})
+			return ""
+		}
+	}
+	t.Emit(tr.Ev{"e": "RelCall", "p": "x", "sess": r.sid(unsafe.Pointer(xt))})
+	r.ab.Release(xt)
+	t.Emit(tr.Ev{"e": "RelCall", "p": "h", "sess": r.sid(unsafe.Pointer(toks[0])), "n": n})
+	for _, tk := range toks[:n] {
+		r.ab.Release(tk)
+	}
+	_, _, fseq, _, qlen := skiplist.VerifBarrier(r.ab)
+	t.Emit(tr.Ev{"e": "Quiesce", "fseq": fseq, "qlen": qlen})
+	t.Emit(tr.Ev{"e": "AbEnd", "sched": []string{}, "followed": 0})
+	return ""
 }
